@@ -73,24 +73,31 @@ type plan struct {
 
 func plans(r *ev.Run) []plan {
 	var ps []plan
-	add := func(roles []int, real bool, alpha string, l, depth int, redel bool) {
+	// A pure non-proposer (roleN) never calls Value(), so the Application variant cannot matter there: roleN is run
+	// with the deterministic Application at the full bound and with the fresh one at bound-1 (as a check of exactly that).
+	add := func(real bool, alpha string, l, depth int, redel bool, roles ...int) {
 		for _, role := range roles {
 			for _, a := range []int{appDet, appFresh} {
-				ps = append(ps, plan{config{Role: role, App: a, Real: real, Alpha: alpha, L: l, Redel: redel}, depth})
+				c := config{Role: role, App: a, Real: real, Alpha: alpha, L: l, Redel: redel}
+				if role == roleN && a == appFresh {
+					c.L--
+				}
+				d := depth
+				if d > c.L {
+					d = c.L
+				}
+				ps = append(ps, plan{c, d})
 			}
 		}
 	}
 	if r.Quick() {
-		add([]int{roleP}, false, "core", 5, 2, true)
-		ps = append(ps, plan{config{Role: roleN, App: appDet, Alpha: "core", L: 5, Redel: true}, 2})
-		// a pure non-proposer never calls Value(): the Application variant cannot matter; checked at a smaller bound
-		ps = append(ps, plan{config{Role: roleN, App: appFresh, Alpha: "core", L: 4, Redel: true}, 2})
+		add(false, "core", 5, 2, true, roleP, roleN)
 		return ps
 	}
-	add([]int{roleP, roleN, roleM}, false, "core", 6, 3, true)
-	add([]int{roleP, roleN}, true, "core", 5, 2, true)
-	add([]int{roleP, roleN}, false, "mini", 7, 3, false)
-	add([]int{roleP, roleN, roleM}, false, "wide", 4, 2, true)
+	add(true, "core", 5, 2, true, roleP, roleN)         // the real walstore on crashfs
+	add(false, "core", 6, 3, true, roleP, roleN, roleM) // reference WAL, one more input
+	add(false, "mini", 7, 3, false, roleP, roleN)       // length 7 over the smallest alphabet that still commits
+	add(false, "wide", 4, 2, true, roleP, roleN, roleM) // every (height, round, kind, value) symbol + invalid / re-proposal
 	return ps
 }
 
